@@ -251,12 +251,15 @@ theorem fixed_influx_rejected : ingest .influx influxDangling = .status 400 := b
 
 /-! ## Non-vacuity -/
 
-/-- a fault does occur in the parser goroutine of the fixed code (influx `m message=1i`: the type assertion
-    on the only field), so `fault_is_error` is not about an empty set of runs -/
-example : ∃ run, routePlan fixed flushThreshold .influx (.influx true [.point (some .int) []]) = .run run ∧
+/-- a fault does occur in the parser goroutine with the `doPush` recover in place (influx `m message=1i` before the C03 fix
+    of `getMessage`: the type assertion on the only field), so `fault_is_error` is not about an empty set of runs -/
+example : ∃ run, routePlan { fixed with influxMsg := false } flushThreshold .influx (.influx true [.point (some .int) []]) = .run run ∧
     run.ending = .fault .typeAssert := ⟨_, rfl, by decide⟩
 
-example : ingest .influx ⟨.plain, .influx true [.point (some .int) []]⟩ = .status 500 := by decide
+/-- `m message=1i`: answered 500 before the fix of `getMessage` (tamed fault), accepted after it -/
+theorem pinned_influx_message_500 :
+    ingestWith { fixed with influxMsg := false } .influx ⟨.plain, .influx true [.point (some .int) []]⟩ = .status 500 := by decide
+theorem fixed_influx_message_accepted : ingest .influx ⟨.plain, .influx true [.point (some .int) []]⟩ = .status 204 := by decide
 
 /-- rejected requests exist on every kind of route -/
 example : Rejected fixed flushThreshold .zipkinJson zipkinNoIds := by
